@@ -688,7 +688,8 @@ def _replay(case, before=None, after=None):
     for i, op in enumerate(case["ops"]):
         if (op[0] in ("drop", "setglobal") and op[1] in failed or op[0] == "render" and op[2] in failed
                 or op[0] == "res" and op[3] in failed
-                or op[0] in ("str", "iter") and op[-1] not in results or op[0] == "next" and op[1] not in iters):
+                or op[0] == "str" and op[1] not in results or op[0] == "iter" and op[2] not in results
+                or op[0] == "next" and op[1] not in iters):
             out.append("skip")
             continue
         try:
@@ -746,10 +747,13 @@ def _replay(case, before=None, after=None):
                 _capture(confs)
                 out.append("ok")
                 conf = cur = None
-            elif op[0] == "str":
-                raw = str(results[op[1]])
+            elif op[0] == "str":               # materialise the whole text: str() / plain_text() / len()
+                how = op[2] if len(op) > 2 else "s"
+                res = results[op[1]]
+                raw = str(res) if how == "s" else res.plain_text() if how == "p" else len(res)
+                res = None
                 _capture(confs)
-                out.append("ok " + enc_str(raw))
+                out.append("ok %d" % raw if how == "n" else "ok " + enc_str(raw))
                 if after is not None:
                     after(i, res_conf[op[1]])
             elif op[0] == "iter":
@@ -829,7 +833,7 @@ def _finish(case):
             _, r, o, k, mode = op
             lines.append("res %s %s %s %s %s" % (r, o, k, mode, shape(o)))
         elif op[0] == "str":
-            lines.append("str %s" % op[1])
+            lines.append("str %s %s" % (op[1], op[2] if len(op) > 2 else "s"))
         elif op[0] == "iter":
             lines.append("iter %s %s" % (op[1], op[2]))
         elif op[0] == "next":
@@ -953,6 +957,15 @@ def oracle(case, replies):
                 plain = _fields(_reference(case, ri, {}, False, "m"))
                 d_before, d_after, conf_nc = info[("res", r)][0], info[i][1], info[i][2]
                 full = _fields(_reference(case, ri, d_after, conf_nc, "m" if nc else "l"))
+                how = op[2] if op[0] == "str" and len(op) > 2 else "s"
+                if how == "n":
+                    if rep != "ok %d" % len(plain[0]):
+                        return "layout: %s: len() differs from the length of the no-colour text" % what
+                    continue
+                if how == "p":
+                    if f[0] != plain[0]:
+                        return "layout: %s: plain_text() differs from the no-colour text" % what
+                    continue
                 if op[0] == "str":
                     got, ref, pref = [f[0]], [full[0]], [plain[0]]
                 else:
@@ -1009,7 +1022,8 @@ def oracle(case, replies):
                 return "lines: record %s: str() and ch_text() differ" % o
             # (b) no memory: the same object / format / configuration description in a fresh state
             d_before, d_after, conf_nc = info[i]
-            ref = _reference(case, i, d_after, conf_nc, mode)
+            # (the lines consumed after the whole text are the lines of a fresh iteration: reference = lines first)
+            ref = _reference(case, i, d_after, conf_nc, {"L": "l", "M": "m"}.get(mode, mode))
             if ref != rep:
                 msg = "object %s (%s) under configuration %s mode %s is rendered differently in a fresh state" % (o, kind, k, mode)
                 if _straddles(d_before, d_after) and not nc:
@@ -1175,7 +1189,9 @@ def _rand_conf(rng, late):
     return {"nc": 0, "items": {}}
 
 
-_WORDS = ["a", "ab", "x y", "name", "Linus", "some text", "Q", "zz top", "été", "Жук", "中文", "", "a-b_c", "{[(", "10%"]
+_WORDS = ["a", "ab", "x y", "name", "Linus", "some text", "Q", "zz top", "été", "Жук", "中文", "", "a-b_c", "{[(", "10%",
+          # characters that str.splitlines treats as line ends
+          "a\rb", "c\r\nd", "e\nf", "g\x0bh", "i\x0cj", "k\x1cl", "m\x1dn\x1eo", "p\x85q", "r\u2028s", "t\u2029u", "v\r"]
 
 
 def _rand_text(rng, long=False):
@@ -1204,7 +1220,7 @@ def _rand_json(rng, depth):
     if depth <= 0 or r < 0.35:
         return _rand_scalar(rng)
     if r < 0.7:
-        keys = rng.sample(["a", "b", "key", "k 2", "z", 1, 2, 10], rng.randrange(0, 4))
+        keys = rng.sample(["a", "b", "key", "k 2", "z", 1, 2, 10, "k\r3", "k\u20284"], rng.randrange(0, 4))
         return {"d": [[k, _rand_json(rng, depth - 1)] for k in keys]}
     n = rng.choice([0, 1, 2, 3, 3, 40]) if depth > 1 else rng.randrange(0, 4)
     if n == 40:
@@ -1279,7 +1295,7 @@ def _rand_table(rng, enum_ids, enums):
         spec["footer"] = rng.choice(["", "the end", _rand_text(rng, True)])
     if rng.random() < 0.25:
         f = rng.choice(fields)
-        spec["titles"] = {f: rng.choice(["Title", "two\nlines", ["a", 7], [None, "b"], "T"])}
+        spec["titles"] = {f: rng.choice(["Title", "two\nlines", ["a", 7], [None, "b"], "T", "t\rx", ["u\x85v", "w"]])}
     if rng.random() < 0.1:
         spec["limits"] = [rng.randrange(0, 3), rng.randrange(0, 3)]
     return spec
@@ -1611,7 +1627,12 @@ def _gen_lazy(rng, concurrent):
     for _ in range(rng.randrange(2, 7)):
         r = rng.random()
         if r < 0.3 and results:
-            ops.append(["str", rng.choice(results)])
+            ops.append(["str", rng.choice(results), rng.choice("ssspn")])
+            if rng.random() < 0.6:        # materialise first, then iterate the same result
+                i = str(nit)
+                nit += 1
+                ops.append(["iter", i, ops[-1][1]])
+                open_iters[i] = True
         elif r < 0.65 and open_iters:
             i = rng.choice(sorted(open_iters))
             n = rng.choice([1, 1, 2, 3, 99])
@@ -1624,7 +1645,7 @@ def _gen_lazy(rng, concurrent):
         ops.append(["next", i, 99])
     for r in results:
         if rng.random() < 0.5:
-            ops.append(["str", r])
+            ops.append(["str", r, "s"])
     case = {"ops": ops, "confs": confs, "enums": enums, "objs": objs,
             "meta": {"kind": "lazy-concurrent" if concurrent else "lazy"}}
     return _finish(case)
@@ -1657,7 +1678,7 @@ def _gen_globalmix(rng):
     rng.shuffle(tail)
     ops += tail[:rng.randrange(1, len(tail) + 1)]
     if any(op[0] == "res" for op in ops):
-        ops.append(["str", "0"])
+        ops.append(["str", "0", "s"])
     case = {"ops": ops, "confs": confs, "enums": enums, "objs": objs, "meta": {"kind": "global-mix"}}
     return _finish(case)
 
